@@ -558,6 +558,12 @@ class FDI:
                         head = self.adt_head(ty)
                         return Agg(head, op['variant'], [], ty=ty)
                     s = val['v']
+                    if ty == 'char' and len(s) >= 3 and s[0] == "'" and s[-1] == "'":
+                        try:
+                            import ast
+                            return Const(ast.literal_eval(s), ty)
+                        except Exception:
+                            return Const(s[1:-1], ty)
                     if s in ('true', 'false'):
                         return Const(s == 'true', ty)
                     try:
